@@ -94,8 +94,114 @@ func intPrelude() string {
 }
 
 type intPrinter struct {
-	memo map[*Term]string
-	vars map[*Term]bool
+	memo   map[*Term]string
+	vars   map[*Term]bool
+	rmemo  map[*Term][2]*big.Int
+	wmemo  map[*Term]bool
+	bounds func(*Term) ([2]int64, bool)
+}
+
+func fullRange(w int) [2]*big.Int {
+	hi := new(big.Int).Lsh(big.NewInt(1), uint(w-1))
+	lo := new(big.Int).Neg(hi)
+	return [2]*big.Int{lo, new(big.Int).Sub(hi, big.NewInt(1))}
+}
+
+func fits(r [2]*big.Int, w int) bool {
+	f := fullRange(w)
+	return r[0].Cmp(f[0]) >= 0 && r[1].Cmp(f[1]) <= 0
+}
+
+// rng: an interval containing the (signed) value of a BV term, from the known
+// bounds of the variables; used to drop wrap-around where it cannot happen.
+func (p *intPrinter) rng(t *Term) [2]*big.Int {
+	if t.S.K != KBV {
+		return [2]*big.Int{big.NewInt(0), big.NewInt(1)}
+	}
+	if t.Op == OConst {
+		v := big.NewInt(t.Int())
+		return [2]*big.Int{v, v}
+	}
+	if p.rmemo == nil {
+		p.rmemo = map[*Term][2]*big.Int{}
+	}
+	if r, ok := p.rmemo[t]; ok {
+		return r
+	}
+	w := t.S.W
+	r := fullRange(w)
+	minmax := func(xs ...*big.Int) [2]*big.Int {
+		lo, hi := xs[0], xs[0]
+		for _, x := range xs[1:] {
+			if x.Cmp(lo) < 0 {
+				lo = x
+			}
+			if x.Cmp(hi) > 0 {
+				hi = x
+			}
+		}
+		return [2]*big.Int{lo, hi}
+	}
+	switch t.Op {
+	case OVar:
+		if p.bounds != nil {
+			if b, ok := p.bounds(t); ok {
+				r = [2]*big.Int{big.NewInt(b[0]), big.NewInt(b[1])}
+			}
+		}
+	case OAdd:
+		a, b := p.rng(t.A[0]), p.rng(t.A[1])
+		r = [2]*big.Int{new(big.Int).Add(a[0], b[0]), new(big.Int).Add(a[1], b[1])}
+	case OSub:
+		a, b := p.rng(t.A[0]), p.rng(t.A[1])
+		r = [2]*big.Int{new(big.Int).Sub(a[0], b[1]), new(big.Int).Sub(a[1], b[0])}
+	case OMul:
+		a, b := p.rng(t.A[0]), p.rng(t.A[1])
+		r = minmax(new(big.Int).Mul(a[0], b[0]), new(big.Int).Mul(a[0], b[1]), new(big.Int).Mul(a[1], b[0]), new(big.Int).Mul(a[1], b[1]))
+	case ONeg:
+		a := p.rng(t.A[0])
+		r = [2]*big.Int{new(big.Int).Neg(a[1]), new(big.Int).Neg(a[0])}
+	case OSDiv:
+		a := p.rng(t.A[0])
+		if t.A[1].IsConst() && t.A[1].Int() > 0 {
+			d := big.NewInt(t.A[1].Int())
+			r = [2]*big.Int{new(big.Int).Quo(a[0], d), new(big.Int).Quo(a[1], d)}
+		}
+	case OIte:
+		a, b := p.rng(t.A[1]), p.rng(t.A[2])
+		r = minmax(a[0], a[1], b[0], b[1])
+	case OSExt:
+		r = p.rng(t.A[0])
+	}
+	if !fits(r, w) {
+		r = fullRange(w)
+		r = [2]*big.Int{r[0], r[1]}
+		p.rmemo[t] = [2]*big.Int{nil, nil}
+		p.rmemo[t] = fullRange(w)
+		// mark as possibly wrapping
+		p.wraps(t, true)
+		return p.rmemo[t]
+	}
+	p.rmemo[t] = r
+	return r
+}
+
+var _ = (*intPrinter).wraps
+
+func (p *intPrinter) wraps(t *Term, set bool) bool {
+	if p.wmemo == nil {
+		p.wmemo = map[*Term]bool{}
+	}
+	if set {
+		p.wmemo[t] = true
+	}
+	return p.wmemo[t]
+}
+
+// noWrap: the exact (unbounded) result of t's arithmetic provably fits its width.
+func (p *intPrinter) noWrap(t *Term) bool {
+	p.rng(t)
+	return !p.wraps(t, false)
 }
 
 func (p *intPrinter) pr(t *Term) string {
@@ -129,18 +235,38 @@ func (p *intPrinter) pr(t *Term) string {
 	case OEq:
 		s = "(= " + a(0) + " " + a(1) + ")"
 	case OAdd:
-		s = fmt.Sprintf("(%s (+ %s %s))", wrapFn(w), a(0), a(1))
+		if p.noWrap(t) {
+			s = fmt.Sprintf("(+ %s %s)", a(0), a(1))
+		} else {
+			s = fmt.Sprintf("(%s (+ %s %s))", wrapFn(w), a(0), a(1))
+		}
 	case OSub:
-		s = fmt.Sprintf("(%s (- %s %s))", wrapFn(w), a(0), a(1))
+		if p.noWrap(t) {
+			s = fmt.Sprintf("(- %s %s)", a(0), a(1))
+		} else {
+			s = fmt.Sprintf("(%s (- %s %s))", wrapFn(w), a(0), a(1))
+		}
 	case OMul:
-		s = fmt.Sprintf("(%s (* %s %s))", wrapFn(w), a(0), a(1))
+		if p.noWrap(t) {
+			s = fmt.Sprintf("(* %s %s)", a(0), a(1))
+		} else {
+			s = fmt.Sprintf("(%s (* %s %s))", wrapFn(w), a(0), a(1))
+		}
 	case ONeg:
-		s = fmt.Sprintf("(%s (- %s))", wrapFn(w), a(0))
+		if p.noWrap(t) {
+			s = fmt.Sprintf("(- %s)", a(0))
+		} else {
+			s = fmt.Sprintf("(%s (- %s))", wrapFn(w), a(0))
+		}
 	case OBNot:
 		s = fmt.Sprintf("(- (- %s) 1)", a(0))
 	case OSDiv:
 		// SMT-LIB bvsdiv by zero is not reachable here: the interpreter forks on the divisor first
-		s = fmt.Sprintf("(%s (tdiv %s %s))", wrapFn(w), a(0), a(1))
+		if t.A[1].IsConst() && t.A[1].Int() != -1 {
+			s = fmt.Sprintf("(tdiv %s %s)", a(0), a(1))
+		} else {
+			s = fmt.Sprintf("(%s (tdiv %s %s))", wrapFn(w), a(0), a(1))
+		}
 	case OSRem:
 		s = fmt.Sprintf("(- %s (* %s (tdiv %s %s)))", a(0), a(1), a(0), a(1))
 	case OUDiv:
@@ -205,7 +331,7 @@ func (s0 *Solver) CheckInt(pc []*Term, q *Term, wantModel bool) (string, map[str
 		s0.intProc.start()
 	}
 	s := s0.intProc
-	p := &intPrinter{memo: map[*Term]string{}, vars: map[*Term]bool{}}
+	p := &intPrinter{memo: map[*Term]string{}, vars: map[*Term]bool{}, bounds: s0.BoundsOf}
 	var asserts []string
 	for _, c := range pc {
 		asserts = append(asserts, p.pr(c))
@@ -351,7 +477,7 @@ func (s0 *Solver) CheckOneShot(pc []*Term, q *Term, wantModel bool, vars []*Term
 		gb.WriteString("(get-value (")
 		n := 0
 		for _, v := range vars {
-			if _, ok := s.declared[v.Name]; ok {
+			if _, ok := s.declared[v.Name+sortTag(v.S)]; ok {
 				gb.WriteString(smtName(v) + " ")
 				n++
 			}
